@@ -1065,6 +1065,10 @@ def run(ctx):
             compare_infer(ctx, t, mo, io_, what="type_from_string")
     stats["unit"] = ud
 
+    # -------------------------------------------------- 4. histories on long-lived objects (c18_hist.py)
+    import c18_hist
+    c18_hist.run_histories(ctx, by_name)
+
     v.coverage["distinct_nontrivial"] = len(nontrivial)
     v.coverage["rule"] = (
         "schemas of the theorem's family (fields str/int/float/bool with optional default, list, List, List[T] nested, "
@@ -1146,6 +1150,9 @@ def replay(rep):
         return impl_infer(stable_partition(r["headers"], probe_by_field_name())) == impl_infer(r["headers"])
     if fn == "permutation":
         return sort_fields(impl_infer(r["headers"])) == sort_fields(impl_infer(r["perm"]))
+    if fn == "history":
+        import c18_hist
+        return c18_hist.replay_history(r)
     if fn == "repeat":
         return impl_infer(r["headers"]) == impl_infer(r["headers"])
     return True
